@@ -308,3 +308,7 @@ package core
 //@   modifies st.gasRemaining, *st.gp, *st.evm.AccessEvents, st.evm.depth, st.evm.readOnly, st.evm.returnData, *st.evm.precompileCache, typeof authTracking
 //@   mutates
 //@   linear
+
+//@ func (r *ExecutionResult) Failed() (f bool)
+//@   serves C37
+//@   ensures f == (r.Err != nil)
